@@ -286,7 +286,7 @@ Theorem recover_refuted :
     insert_supported listed nrows = false
     /\ recover listed last_id nrows = Some [[VNull]]
     /\ [[VInt last_id]] <> [[VNull]].
-Proof. exists (Some [VNull]), 4%Z, 1. repeat split; discriminate. Qed.
+Proof. exists (Some [[VNull]]), 4%Z, 1. repeat split; discriminate. Qed.
 
 Theorem recover_batch_refuted : forall last_id n, 2 <= n -> recover None last_id n = None.
 Proof. intros last_id n H. cbn. destruct (Nat.eqb n 1) eqn:E; [apply Nat.eqb_eq in E; lia | reflexivity]. Qed.
